@@ -66,12 +66,12 @@ func (l *lineBuf) split() []string {
 // runOne executes one random trace and returns its event lines, the schedule
 // and the number of determinism differences found by re-executing it.
 var scenarioWish = map[string]Wish{
-	"stale-leader":         {MinNodes: 3, Async: -1, Tiny: 10, Spare: 0},
+	"stale-leader":         {MinNodes: 3, Async: 60, Tiny: 10, Spare: 0},
 	"lagging-snapshot":     {MinNodes: 3, Async: -1, Tiny: 20, Spare: 20},
 	"conf-lagging-applier": {MinNodes: 3, MaxNodes: 3, Async: 60, Tiny: 30, Spare: 100, NoLearner: true},
-	"disk-stall":           {MinNodes: 3, MaxNodes: 3, Async: 100, Tiny: 10, Spare: 0},
+	"disk-stall":           {MinNodes: 3, MaxNodes: 3, Async: 100, Tiny: 50, Spare: 0, OnlySizeLimits: true},
 	"vote-race":            {MinNodes: 3, Async: 50, Tiny: 0, Spare: 0},
-	"pagination":           {MinNodes: 2, MaxNodes: 3, Async: 30, Tiny: 100, Spare: 0},
+	"pagination":           {MinNodes: 3, MaxNodes: 3, Async: 40, Tiny: 100, Spare: 0, OnlySizeLimits: true, NoLearner: true},
 	"transfer":             {MinNodes: 3, Async: -1, Tiny: 0, Spare: 0, NoLearner: true},
 	"reads":                {MinNodes: 2, Async: 30, Tiny: 0, Spare: 0},
 	"crash-points":         {MinNodes: 3, MaxNodes: 3, Async: 50, Tiny: 0, Spare: 0},
@@ -195,10 +195,10 @@ func cmdRandom(args []string) {
 		scen := ""
 		if pn == "mix" {
 			// alternate plain weighted-random profiles and scenario drivers
-			if i%2 == 0 {
-				pn = names[(i/2)%len(names)]
+			if i%4 == 0 {
+				pn = names[(i/4)%len(names)]
 			} else {
-				scen = scenarios[(i/2)%len(scenarios)].name
+				scen = scenarios[(i-i/4-1)%len(scenarios)].name
 				pn = "base"
 			}
 		} else if strings.HasPrefix(pn, "scenario:") {
